@@ -47,6 +47,13 @@ def atomEqW (peq : E → E → Bool) (x y : E) : Bool :=
   | .call1 f a, .call1 g b => f == g && peq a b
   | .call2 f a1 a2, .call2 g b1 b2 => f == g && peq a1 b1 && peq a2 b2
   | .div a1 a2, .div b1 b2 => peq a1 b1 && peq a2 b2
+  | .shr a1 a2, .shr b1 b2 => peq a1 b1 && peq a2 b2
+  | .shl a1 a2, .shl b1 b2 => peq a1 b1 && peq a2 b2
+  | .band a1 a2, .band b1 b2 => peq a1 b1 && peq a2 b2
+  | .bor a1 a2, .bor b1 b2 => peq a1 b1 && peq a2 b2
+  | .bxor a1 a2, .bxor b1 b2 => peq a1 b1 && peq a2 b2
+  | .imod a1 a2, .imod b1 b2 => peq a1 b1 && peq a2 b2
+  | .bnot a, .bnot b => peq a b
   | _, _ => false
 
 /-- polynomial equality with atoms compared recursively to depth `n`: so `sqrt (x*x + y*y)` and
